@@ -633,6 +633,69 @@ def _r5(ctx, repo, A, pm):
             ctx.fail("C19.R5", key, f.file, st.lineno, f.qual,
                      f"a non-numeric {thr[v]} file: {verdict}")
     ctx.require(n >= 2, f"only {n} threshold conversions found in sensors_temperatures()")
+    # every reading is built from ITS sensor/zone only: nothing appended inside a
+    # per-sensor loop may still hold a value left by the previous sensor
+    from ..core.analysis import stale_in_loop
+    nloops = 0
+    for fname in ("sensors_temperatures", "sensors_fans"):
+        sf = repo.func(pm, fname, required=False)
+        if sf is None:
+            continue
+        scfg = A.cfg(sf)
+        for lp in [x for x in ast.walk(sf.node) if isinstance(x, ast.For)]:
+            for st_ in lp.body:
+                for y_ in ast.walk(st_):
+                    if isinstance(y_, ast.Expr) and isinstance(y_.value, ast.Call) \
+                            and isinstance(y_.value.func, ast.Attribute) \
+                            and y_.value.func.attr == "append" \
+                            and any(isinstance(a_, ast.Tuple) for a_ in y_.value.args):
+                        if any(isinstance(z_, ast.For) and z_ is not lp
+                               and any(w_ is y_ for w_ in ast.walk(z_))
+                               for b_ in lp.body for z_ in ast.walk(b_)):
+                            continue
+                        nloops += 1
+                        stale = stale_in_loop(scfg, lp, y_, sf.node)
+                        key = f"per-sensor-state:{fname}:{norm_stmt(lp.iter)[:30]}"
+                        if stale:
+                            ctx.fail("C19.R5", key, sf.file, y_.lineno, sf.qual,
+                                     f"the reading appended for a sensor can carry {stale} over "
+                                     f"from the PREVIOUS sensor (not assigned on every path of "
+                                     f"the iteration): a zone without that threshold reports its "
+                                     f"neighbour's")
+                        else:
+                            ctx.ok("C19.R5", key, nontrivial=True,
+                                   sample="every appended name is assigned in the iteration")
+    ctx.require(nloops >= 2, f"only {nloops} per-sensor reading loops found")
+    # entry i of cpu_freq(percpu=True) describes CPU i: the cpufreq directories are
+    # ordered by CPU NUMBER (policy10 sorts before policy2 as text)
+    for cf in repo.funcs(pm, "cpu_freq"):
+        gl = [st_ for st_ in ast.walk(cf.node) if isinstance(st_, ast.Assign)
+              and any(isinstance(c_, ast.Call) and dotted(c_.func) == "glob.glob"
+                      for c_ in ast.walk(st_.value))
+              and isinstance(st_.targets[0], ast.Name)]
+        if not gl:
+            continue
+        pv = gl[0].targets[0].id
+        numeric = False
+        for c_ in ast.walk(cf.node):
+            if not isinstance(c_, ast.Call):
+                continue
+            is_sort = isinstance(c_.func, ast.Attribute) and c_.func.attr == "sort" \
+                and dotted(c_.func.value) == pv
+            is_sorted = dotted(c_.func) == "sorted" and (
+                c_ is gl[0].value or any(dotted(a_) == pv for a_ in c_.args))
+            if (is_sort or is_sorted) and any(
+                    k_.arg == "key" and any(isinstance(z_, ast.Call) and dotted(z_.func) == "int"
+                                             for z_ in ast.walk(k_.value))
+                    for k_ in c_.keywords):
+                numeric = True
+        if numeric:
+            ctx.ok("C19.R5", "cpu_freq:cpu-order", sample=f"{pv} sorted by the CPU number")
+        else:
+            ctx.fail("C19.R5", "cpu_freq:cpu-order", cf.file, gl[0].lineno, cf.qual,
+                     f"the cpufreq directories in `{pv}` are not sorted by CPU number (key=int(...)): "
+                     f"with more than 10 CPUs entry i of cpu_freq(percpu=True) is not CPU i and "
+                     f"the /proc/cpuinfo frequency is paired with another CPU's limits")
     # offline CPU probe
     for cf in repo.funcs(pm, "cpu_freq"):
         probes = [c for c in calls_in(cf.node) if dotted(c.func) in ("cat", "bcat") and c.args
